@@ -14,7 +14,7 @@ THEOREMS = ["Claripy.Props.C17.C17_mro_solver", "Claripy.Props.C17.C17_giveup_ke
             # the caching class Solver
             "Claripy.Props.C17.C17_solver_giveup_keeps_invariant", "Claripy.Props.C17.C17_solver_after_giveup",
             "Claripy.Props.C17.C17_solver_later_answers_after_giveup", "Claripy.Props.C17.C17_hypotheses_allow_giveups",
-            "Claripy.Solver.gHyps", "Claripy.Solver.gHist_outputs", "Claripy.Solver.sol_error_users"]
+            "Claripy.Solver.gHyps", "Claripy.Solver.sol_error_users"]
 A = lambda c, s=0: {"s": s, "op": "add", "cs": [c]}  # noqa: E731
 E = lambda e, n, s=0: {"s": s, "op": "eval", "e": e, "n": n, "extra": []}  # noqa: E731
 RULES = {
